@@ -51,7 +51,12 @@ def dump(typ, val, tb, include_local_traceback, include_local_version):
         return typ
 
     if include_local_traceback:
-        tbtext = "".join(traceback.format_exception(typ, val, tb))
+        try:
+            tbtext = "".join(traceback.format_exception(typ, val, tb))
+        except Exception:
+            # the traceback module itself fails on some exceptions (a SyntaxError whose detail tuple
+            # holds a non-text `text` or a non-int `lineno`): send the exception without it
+            tbtext = "<traceback unavailable>"
     else:
         tbtext = "<traceback denied>"
     attrs = []
